@@ -853,25 +853,23 @@ impl<D: TextDecorator> SubRenderer<D> {
             final(self).lines@.len() >= old(self).lines@.len() + links@.len() && final(self).lines@.take(old(self).lines@.len() as int) =~= old(self).lines@, //@w @C08 @C03 #one_or_more_lines_per_footnote
     {
         for line in itl: links
-            invariant //@w[
-                self.sr_inv(), tag_ok::<Vec<D::Annotation>>(), self.same_stacks(old(self)) && self.same_config(old(self)),
+            invariant //@w
+                self.sr_inv(), tag_ok::<Vec<D::Annotation>>(), self.same_stacks(old(self)) && self.same_config(old(self)), //@w
                 self.width >= 2, //@w kf=D13
-                self.lines@.len() >= old(self).lines@.len() + itl.index@ && itl.index@ >= 0 && self.lines@.take(old(self).lines@.len() as int) =~= old(self).lines@,
-            //@w]
+                self.lines@.len() >= old(self).lines@.len() + itl.index@ && itl.index@ >= 0 && self.lines@.take(old(self).lines@.len() as int) =~= old(self).lines@, //@w
         {
             /* Hard wrap */
             let mut pos: usize = 0;
             let mut wrapped_line: TaggedLine<Vec<D::Annotation>> = TaggedLine::new();
             let tss = line_tagged_strings(line);
             for ts in its: tss
-                invariant //@w[
-                    self.sr_inv(), tag_ok::<Vec<D::Annotation>>(), self.same_stacks(old(self)) && self.same_config(old(self)),
-                    its.seq() == tss@, tss@.len() <= 0x10_0000, forall|i: int| 0 <= i < tss@.len() ==> short(#[trigger] tss@[i].s@),
+                invariant //@w
+                    self.sr_inv(), tag_ok::<Vec<D::Annotation>>(), self.same_stacks(old(self)) && self.same_config(old(self)), //@w
+                    its.seq() == tss@, tss@.len() <= 0x10_0000, forall|i: int| 0 <= i < tss@.len() ==> short(#[trigger] tss@[i].s@), //@w
                     self.width >= 2, //@w kf=D13
-                    wrapped_line.wf(), wrapped_line.len == pos, pos <= its.index@ * 0x2_0000_0000 + self.width,
-                    self.options.wrap_links ==> pos <= self.width,
-                    self.lines@.len() >= old(self).lines@.len() + itl.index@ && itl.index@ >= 0 && self.lines@.take(old(self).lines@.len() as int) =~= old(self).lines@,
-                //@w]
+                    wrapped_line.wf(), wrapped_line.len == pos, pos <= its.index@ * 0x2_0000_0000 + self.width, //@w
+                    self.options.wrap_links ==> pos <= self.width, //@w
+                    self.lines@.len() >= old(self).lines@.len() + itl.index@ && itl.index@ >= 0 && self.lines@.take(old(self).lines@.len() as int) =~= old(self).lines@, //@w
             {
                 proof { assert(short(tss@[its.index@].s@)); } //@w
                 // FIXME: should we percent-escape?  This is probably
@@ -886,12 +884,11 @@ impl<D: TextDecorator> SubRenderer<D> {
                     let mut buf = String::new();
                     let ghost pos_in = pos; //@w
                     for c in itc: s.chars()
-                        invariant //@w[
-                            self.sr_inv(), tag_ok::<Vec<D::Annotation>>(), self.same_stacks(old(self)) && self.same_config(old(self)),
-                            wrapped_line.wf(), wrapped_line.len + sw(buf@) == pos, pos <= self.width, self.options.wrap_links,
+                        invariant //@w
+                            self.sr_inv(), tag_ok::<Vec<D::Annotation>>(), self.same_stacks(old(self)) && self.same_config(old(self)), //@w
+                            wrapped_line.wf(), wrapped_line.len + sw(buf@) == pos, pos <= self.width, self.options.wrap_links, //@w
                             self.width >= 2, //@w kf=D13
-                            self.lines@.len() >= old(self).lines@.len() + itl.index@ && itl.index@ >= 0 && self.lines@.take(old(self).lines@.len() as int) =~= old(self).lines@,
-                        //@w]
+                            self.lines@.len() >= old(self).lines@.len() + itl.index@ && itl.index@ >= 0 && self.lines@.take(old(self).lines@.len() as int) =~= old(self).lines@, //@w
                     {
                         let c_width = UnicodeWidthChar::width(c).unwrap_or(0);
                         if pos + c_width > self.width {
@@ -902,8 +899,8 @@ impl<D: TextDecorator> SubRenderer<D> {
                                 });
                                 buf = String::new();
                             }
-
                             let ghost before = self.lines@; //@w
+
                             self.add_line(RenderLine::Text(wrapped_line));
                             proof { assert(self.lines@.drop_last() == before); assert(self.lines@ =~= before.push(self.lines@.last())); assert(before.push(self.lines@.last()).take(old(self).lines@.len() as int) =~= before.take(old(self).lines@.len() as int)); } //@w
                             wrapped_line = TaggedLine::new();
@@ -1512,6 +1509,39 @@ fn filter_text_strikeout(s: &str) -> (r: Option<String>)
     proof { assert(s@.take(s@.len() as int) =~= s@); } //@w
     Some(result)
 }
+//@end
+
+// ---------------------------------------------------------------------------------------------
+// The default TextDecorator::finalise (src/render/text_renderer.rs:797-805): the footnote list, entry k is "[k]: target" (C08)
+// R7: `urls.into_iter().enumerate().map(f).collect()` -> enum_map_collect(urls, f) (trusted: f applied to (index, element) in order)
+// R6: format!("[{}]: {}", n, s) -> fmt_footnote(n, s)
+spec fn note_text(n: usize, target: Seq<char>) -> Seq<char>;
+#[verifier::external_body]
+fn fmt_footnote(n: usize, s: String) -> (r: String) ensures r@ == note_text(n, s@) { format!("[{}]: {}", n, s) }
+#[verifier::external_body]
+fn enum_map_collect<A, F: Fn(usize, String) -> TaggedLine<A>>(v: Vec<String>, f: F) -> (r: Vec<TaggedLine<A>>)
+    requires forall|i: int| 0 <= i < v@.len() ==> call_requires(f, (i as usize, #[trigger] v@[i])),
+    ensures r@.len() == v@.len(), forall|i: int| 0 <= i < v@.len() ==> call_ensures(f, (i as usize, v@[i]), #[trigger] r@[i]),
+{ unimplemented!() }
+
+//@slice src/render/text_renderer.rs :: trait TextDecorator :: fn finalise :: /urls\.into_iter\(\)/ .. /\Z/
+//@name default_finalise_slice
+//@auto C01 C08
+//@sub /(?s)urls\.into_iter\(\)\s*\.enumerate\(\)\s*\.map\(\|\(idx, s\)\| \{/ ==> enum_map_collect(urls, |idx: usize, s: String| -> (l: TaggedLine<A>) requires idx < usize::MAX, tag_ok::<A>() ensures flat(l.v@) =~= flat_str(note_text((idx + 1) as usize, s@), dflt) {
+//@sub /format!\("\[\{\}\]: \{\}", idx \+ 1, s\)/ ==> fmt_footnote(idx + 1, s)
+//@sub /&Default::default\(\)/ ==> &dflt
+//@sub /(?s)\}\)\s*\.collect\(\)/ ==> })
+fn default_finalise_slice<A: Debug + Eq + PartialEq + Clone + Default>(urls: Vec<String>, dflt: A) -> (r: Vec<TaggedLine<A>>) //@w[
+    requires tag_ok::<A>(), urls@.len() < usize::MAX,
+    ensures
+        // one entry per link, in order; entry k (1-based) is "[k]: " followed by that link's target (C08)
+        r@.len() == urls@.len(), //@w @C08 #one_footnote_per_link_default
+        forall|k: int| 0 <= k < urls@.len() ==> flat((#[trigger] r@[k]).v@) =~= flat_str(note_text((k + 1) as usize, urls@[k]@), dflt), //@w @C08 #footnote_k_is_numbered_k
+{ //@w]
+        enum_map_collect(urls, |idx: usize, s: String| -> (l: TaggedLine<A>) requires idx < usize::MAX, tag_ok::<A>() ensures flat(l.v@) =~= flat_str(note_text((idx + 1) as usize, s@), dflt) {
+                TaggedLine::from_string(fmt_footnote(idx + 1, s), &dflt)
+            })
+} //@w
 //@end
 } // verus!
 fn main() {}
